@@ -3,6 +3,7 @@
    reader accepts it (`Writer.Str.readRaw`). -/
 import RsassModel.Basic.Proto
 import RsassModel.Writer.CssString
+import RsassModel.Writer.Ident
 open Writer.Str
 
 namespace C09Drv
@@ -19,6 +20,20 @@ def answer (q : SQuirks) (s : List Nat) : String :=
   let toks := showQ q s
   Proto.hexOfString (render toks) ++ "|" ++ (match readRaw q toks with | some _ => "ok" | none => "err")
 
+def renderOut : Writer.Ident.Out → List Char
+  -- the value is then printed by `Display for CssString`: a private-use character as `\{hex}` (the next character here, `z`, is no hex digit)
+  | .raw c => if isPrivateUse c then ['\\'] ++ hexDigits c else [Char.ofNat c]
+  | .bs c => ['\\', Char.ofNat c]
+  | .hex c => ['\\'] ++ hexDigits c ++ [' ']
+
+/-- expected expanded output of `a{b:[x]<escape>z}` read as plain css -/
+def identAnswer (first : Bool) (c : Nat) : String :=
+  let o := if first then Writer.Ident.normFirst Writer.Ident.thrCode c else Writer.Ident.normRest Writer.Ident.thrCode c
+  let text := (if first then [] else ['x']) ++ renderOut o ++ ['z']
+  let body := "a {\n  b: " ++ String.ofList text ++ ";\n}\n"
+  let out := if text.all (fun ch => ch.toNat < 128) then body else "@charset \"UTF-8\";\n" ++ body
+  "ok:" ++ Proto.hexOfString out
+
 def handle (quirks : List String) (op : String) (args : List String) : String :=
   match op, args with
   | "c09str", [h] =>
@@ -26,6 +41,10 @@ def handle (quirks : List String) (op : String) (args : List String) : String :=
     let q : SQuirks := { escapeUnterminated := quirks.contains "escapeUnterminated"
                          readerIgnoresEscapes := quirks.contains "readerIgnoresEscapes" }
     answer q s ++ "\t" ++ answer SQuirks.spec s
+  | "c09id", [pos, cp, _sp] =>
+    match cp.toNat? with
+    | some c => identAnswer (pos == "f") c
+    | none => "bad-args"
   | _, _ => "bad-op"
 
 end C09Drv
